@@ -31,7 +31,17 @@ var obCache = map[string]*Ob{}
 var registry []Rule
 
 func reg(prop, id, tmpl, desc string, run func(o *Ob)) {
+	uniqueID(id)
 	registry = append(registry, Rule{Prop: prop, ID: id, Template: tmpl, Desc: desc, Run: run})
+}
+
+// uniqueID: a rule id names one rule (obligation keys and known findings are keyed by it).
+func uniqueID(id string) {
+	for _, r := range registry {
+		if r.ID == id {
+			panic("amverif: rule id registered twice: " + id)
+		}
+	}
 }
 
 func regThorough(prop, id, tmpl, desc string, run func(o *Ob)) {
